@@ -136,8 +136,66 @@ func init() {
 		o.p("def relatedAddedMarks : List String := %s\n", leanList(ifCondsWhoseBodyContains(gr, "added[predID][relatedID] = true")))
 		et := mustFunc(sf, "Store", "ExecuteTransaction")
 		o.p("def txnSteps : List String := %s\n", leanList(callsIn(et.Body, "Lock", "Strings", "UnixNano", "StoreEntitiesWithTransaction", "commitIDTxn", "Commit", "updateDataset")))
+		// a transaction is a map from dataset name to entities (one part per dataset), and every part's write loop is handed the
+		// same badger transaction (= the same read snapshot) and the same commit time
+		o.p("def txnPartsType : String := %s\n", leanStr(structFieldType(sf, "Transaction", "DatasetEntities")))
+		o.p("def txnWriteArgs : List String := %s\n", leanList(callArgsOf(et.Body, "StoreEntitiesWithTransaction")))
+		o.p("def txnSnapshots : List String := %s\n", leanList(callsIn(et.Body, "NewTransaction")))
 		se := mustFunc(f, "Dataset", "StoreEntities")
 		o.p("def storeSteps : List String := %s\n", leanList(callsIn(se.Body, "Lock", "Sleep", "UnixNano", "StoreEntitiesWithTransaction", "commitIDTxn", "Commit", "updateDataset")))
 		o.write(outDir, "Layout")
 	}
+}
+
+// structFieldType returns the printed type of field `field` of struct type `typ` declared in rel ("unknown" if absent).
+func structFieldType(rel, typ, field string) string {
+	f := load(rel)
+	res := "unknown"
+	if f == nil {
+		return res
+	}
+	ast.Inspect(f.f, func(n ast.Node) bool {
+		ts, ok := n.(*ast.TypeSpec)
+		if !ok || ts.Name.Name != typ {
+			return true
+		}
+		if st, ok := ts.Type.(*ast.StructType); ok {
+			for _, fl := range st.Fields.List {
+				for _, nm := range fl.Names {
+					if nm.Name == field {
+						res = str(fl.Type)
+					}
+				}
+			}
+		}
+		return false
+	})
+	return res
+}
+
+// callArgsOf lists, in source order, the printed argument lists of every call of a function or method named `name`.
+func callArgsOf(body ast.Node, name string) []string {
+	var res []string
+	ast.Inspect(body, func(n ast.Node) bool {
+		c, ok := n.(*ast.CallExpr)
+		if !ok {
+			return true
+		}
+		fn := ""
+		switch x := c.Fun.(type) {
+		case *ast.SelectorExpr:
+			fn = x.Sel.Name
+		case *ast.Ident:
+			fn = x.Name
+		}
+		if fn == name {
+			var as []string
+			for _, a := range c.Args {
+				as = append(as, str(a))
+			}
+			res = append(res, strings.Join(as, ", "))
+		}
+		return true
+	})
+	return res
 }
